@@ -100,13 +100,21 @@ static Router *buildRouter(const Scene &s, std::vector<ConnRef *> &conns)
     return router;
 }
 
-static int scenesMode(const char *inFile, const char *outFile, const char *chunk)
+static int scenesMode(const char *inFile, const char *outFile, const char *chunk, long skip)
 {
     std::ifstream in(inFile);
     vt::Out out(outFile);
     out.line(std::string("{\"chunk\":") + chunk + ",\"LS\":1024,\"recs\":[");
-    Scene s; bool first = true;
+    Scene s; bool first = true; long idx = 0;
     while (readScene(in, s)) {
+        if (idx++ < skip) continue;
+        {   // what to record for this scene should the process die inside the library (the driver restarts after it)
+            vt::J p; p.obj(); sceneJson(p, s); p.k("thrown").b(true).k("what").s("process died").k("conns").arr();
+            for (auto &c : s.conns) { p.obj().k("src").arr().i(c.sx).i(c.sy).end().k("dst").arr().i(c.dx).i(c.dy).end().k("sd").i(c.sd).k("dd").i(c.dd);
+                                      p.k("cps").arr(); for (auto &q : c.cps) p.arr().i(q.first).i(q.second).end(); p.end().end(); }
+            p.end().end();
+            out.line("#PENDING " + p.out); out.flush();
+        }
         vt::J j; j.obj(); sceneJson(j, s);
         std::vector<ConnRef *> conns;
         bool thrown = false; std::string what;
@@ -135,7 +143,7 @@ static int scenesMode(const char *inFile, const char *outFile, const char *chunk
         j.end();
         if (!thrown) j.k("overlap").b(router->existsOrthogonalSegmentOverlap());
         j.end();
-        out.line((first ? "" : ",") + j.out); first = false;
+        out.line((first ? "" : ",") + j.out); first = false; out.flush();
         if (!thrown) delete router;   // after an assertion exception the router's state is undefined: leak it
     }
     out.line(std::string("]}"));
@@ -347,6 +355,6 @@ int main(int argc, char **argv)
     if (argc >= 3 && std::string(argv[1]) == "bends") return bendsMode(argv[2]);
     if (argc >= 4 && std::string(argv[1]) == "hist") return histMode(argv[2], argv[3]);
     if (argc >= 5 && std::string(argv[1]) == "frame") return frameMode(argv[2], argv[3], strtoull(argv[4], 0, 10));
-    if (argc >= 4 && std::string(argv[1]) == "scenes") return scenesMode(argv[2], argv[3], argc > 4 ? argv[4] : "20");
+    if (argc >= 4 && std::string(argv[1]) == "scenes") return scenesMode(argv[2], argv[3], argc > 4 ? argv[4] : "20", argc > 5 ? atol(argv[5]) : 0);
     return 2;
 }
